@@ -1,6 +1,7 @@
 package main
 
 import (
+	"sort"
 	"fmt"
 	"go/token"
 	"strings"
@@ -494,6 +495,8 @@ func runC15(c *Ctx) {
 		}
 		c.Check(copied, "R6", "objects.Append:keeps-completed", p.Pos(ap.Pos()), "appending a duplicate keeps the completed flag", "objects.Append drops the completed flag: re-adding an OID after its transfer finished marks it unfinished again, so the duplicate is neither enqueued nor delivered")
 	}
+	c15RetryAfterValue(c)
+	c15ExpiryClock(c)
 }
 
 func filterObs(obs []Ob, rulePrefix string) []Ob {
@@ -519,4 +522,110 @@ var c15Canaries = []Canary{
 	{Name: "no-clamp", ExpectKey: "C15.R4#ReadyTime", Edits: []Edit{{File: "tq/transfer_queue.go", Find: "	if delay == 0 || delay > maxDelayMs {", Repl: "	if delay == 0 {"}}},
 	{Name: "enqueue-duplicates", ExpectKey: "C15.R6#incoming-only-first-seen", Edits: []Edit{{File: "tq/transfer_queue.go", Find: "	if objs := q.remember(t); len(objs.objects) > 1 {", Repl: "	if objs := q.remember(t); len(objs.objects) > 2 {"}}},
 	{Name: "append-drops-completed", ExpectKey: "C15.R6#objects.Append", Edits: []Edit{{File: "tq/transfer_queue.go", Find: "func (s *objects) Append(os ...*objectTuple) *objects {\n	return &objects{\n		completed: s.completed,", Repl: "func (s *objects) Append(os ...*objectTuple) *objects {\n	return &objects{"}}},
+}
+
+// c15RetryAfterValue (R4, value provenance): the time before which a deferred object is not retried is, for a
+// Retry-After given as an HTTP-date, that date itself, and for a number of seconds, now + that many seconds.
+// Converting the date to a number first (seconds until the date, truncated) moves the retry up to a second before
+// the time the server named. Decided on the constructor: what is stored as the available time is made only of the
+// parsed date (unchanged), the parsed number of seconds, time.Now() and constants.
+func c15RetryAfterValue(c *Ctx) {
+	p := c.P
+	fn := p.Fn("errors", "NewRetriableLaterError")
+	if fn == nil {
+		c.Missing("R4", "errors.NewRetriableLaterError", "not found")
+		return
+	}
+	nDate, nSecs, n := 0, 0, 0
+	var scan func(f *ssa.Function)
+	scan = func(f *ssa.Function) {
+		for _, b := range f.Blocks {
+			for _, in := range b.Instrs {
+				st, ok := in.(*ssa.Store)
+				if !ok {
+					continue
+				}
+				fa, ok := st.Addr.(*ssa.FieldAddr)
+				if !ok {
+					continue
+				}
+				if _, fld := fieldAddrName(fa); fld != "timeAvailable" {
+					continue
+				}
+				n++
+				direct := false
+				if cc, idx, isRes := CallResult(st.Val); isRes && idx == 0 && CalleeName(cc.Common()) == "time.Parse" {
+					direct = true
+					nDate++
+				}
+				var odd []string
+				usesDate := false
+				for _, l := range p.LeavesNoFields(st.Val, func(v ssa.Value) FlowAct {
+					if cc, _, isRes := CallResult(v); isRes {
+						switch CalleeName(cc.Common()) {
+						case "time.Parse", "strconv.Atoi", "strconv.ParseInt", "time.Now":
+							return Stop
+						}
+					}
+					return Descend
+				}) {
+					if _, isC := l.(*ssa.Const); isC {
+						continue
+					}
+					if cc, _, isRes := CallResult(l); isRes {
+						switch CalleeName(cc.Common()) {
+						case "time.Parse":
+							usesDate = true
+							continue
+						case "strconv.Atoi", "strconv.ParseInt":
+							nSecs++
+							continue
+						case "time.Now":
+							continue
+						}
+					}
+					odd = append(odd, describeValue(p, l))
+				}
+				sort.Strings(odd)
+				c.Check(len(odd) == 0 && (!usesDate || direct), "R4", fmt.Sprintf("retry-after-time-as-given#%d", n), p.InstrPos(st), "the available time is the server's date itself, or now + the server's seconds",
+					"the time a deferred object becomes available is recomputed from the server's Retry-After date ("+strings.Join(odd, ", ")+") instead of being that date: truncation makes the retry happen before the indicated time")
+			}
+		}
+	}
+	scan(fn)
+	c.Check(nDate >= 1, "R4", "retry-after-date-form", p.Pos(fn.Pos()), "an HTTP-date Retry-After is stored as that date", "no path stores the parsed Retry-After date itself as the available time")
+	c.Check(nSecs >= 1, "R4", "retry-after-seconds-form", p.Pos(fn.Pos()), "a numeric Retry-After is stored as now + seconds", "no path derives the available time from the numeric Retry-After value")
+}
+
+// c15ExpiryClock (R5, clock provenance): an action is expired when its expiry lies before now (plus the safety
+// margin). The comparison has to be made against the current time each time it is asked; comparing against the
+// time the action was created makes the answer constant, so an action that expires while its object waits in the
+// queue is used anyway. Decided on the helper: the instant the expiry is compared with derives from time.Now().
+func c15ExpiryClock(c *Ctx) {
+	p := c.P
+	fn := p.Fn("tools", "IsExpiredAtOrIn")
+	if fn == nil {
+		c.Missing("R5", "tools.IsExpiredAtOrIn", "not found")
+		return
+	}
+	n := 0
+	for _, ci := range CallsIn(fn, "(time.Time).Before", "(time.Time).After") {
+		n++
+		args := CallArgs(ci.Common())
+		usesNow := false
+		for _, a := range args {
+			for _, l := range p.LeavesNoFields(a, func(v ssa.Value) FlowAct {
+				if cc, _, ok := CallResult(v); ok && CalleeName(cc.Common()) == "time.Now" {
+					return Stop
+				}
+				return Descend
+			}) {
+				if cc, _, ok := CallResult(l); ok && CalleeName(cc.Common()) == "time.Now" {
+					usesNow = true
+				}
+			}
+		}
+		c.Check(usesNow, "R5", fmt.Sprintf("expiry-compared-with-now#%d", n), p.InstrPos(ci), "expiry is compared with the current time", "the expiry of an action is not compared with the current time (time.Now()): whether an action is expired is decided once and for all when it is created, and an action that expires while queued is still used")
+	}
+	c.AtLeast("R5", "expiry comparisons in IsExpiredAtOrIn", n, 1)
 }
